@@ -39,6 +39,12 @@ claim("C05",
       STATIC_NOTE + "CBOR decode model of DESIGN §2; recover semantics of the Go spec. Restore of key material through plain cbor.Unmarshal by the caller (frost/doerner configs) is outside any library entry point: see known findings of C15.",
       "DESIGN.md §4 C05")
 
+claim("C06",
+      "must-pass-through (dominance) and completeness rules on the echo-broadcast mechanism in pkg/protocol: finalize gated by receivedAll/checkBroadcastHash, both queues compared with the previous round's hash, outgoing messages carry the right round's hash, single writer and full/ordered coverage of the per-round hash, all fields of Message reach Message.Hash by independent writes",
+      "Decides for every equivocating party, partition and delivery order the structural links of Goldwasser-Lindell echo broadcast: a round cannot be finalized without the comparison of every received verification hash; the comparison is over whole slices and both queues; the hash sent and the hash compared belong to the same round; the hash covers every participant's broadcast, in a party-independent order, and every field of each message. Right level: the property reduces to these links plus collision resistance; which links exist is a shape fact.",
+      STATIC_NOTE + "Handler processes messages sequentially under its mutex (C17). Not decided: collision resistance of the hash.",
+      "DESIGN.md §4 C06")
+
 for p, why in {
     "C01": "not built yet", "C02": "not built yet", "C03": "not built yet", "C04": "not built yet", "C05": "not built yet",
     "C06": "not built yet", "C07": "not built yet", "C08": "not built yet", "C09": "not built yet", "C10": "not built yet",
